@@ -45,6 +45,25 @@ def gen_args(rng, f, malformed_rate=0.15):
                 dims = next((vals[q] for q, tq in params if tq == 'arr' and q in vals), (4, 4, 4))
                 top = 12 if 'ongest' in f['name'] else min(12, 2 * min(dims) + 1)     # keep the rendered result small
                 vals[p] = rng.randint(1, top)
+    if f['name'] in ('RandomSizedCrop_apply', 'RandomSizedBBoxSafeCrop_apply'):
+        for p, t in params:
+            if p == 'interpolation':
+                vals[p] = 0          # voxel-exact comparison (order >= 1 is a Mix cell in the model)
+    if f['name'] in ('crop_and_pad', 'CropAndPad_apply', 'CropAndPad_apply_to_mask'):
+        # image path of CropAndPad: integer fill values (the test volume is an integer label array), nearest
+        # interpolation (voxel-exact comparison), frame = the array's own shape
+        dims = next((vals[q] for q, tq in params if tq == 'arr' and q in vals), None)
+        for p, t in params:
+            if p == 'interpolation':
+                vals[p] = 0
+            elif p in ('pad_value', 'pad_value_mask'):
+                vals[p] = Fr(-rng.randint(1, 9))
+            elif dims is not None and p in ('rows', 'cols', 'slices'):
+                vals[p] = dims[('rows', 'cols', 'slices').index(p)]
+            elif p == 'pad_mode':
+                vals[p] = rng.choice(['constant', 'constant', 'edge', 'reflect', 'symmetric', 'wrap']) if not mal else 'maximum'
+            elif p == 'keep_size':
+                vals[p] = rng.random() < 0.5
     for p, t in params:
         if p in vals:
             continue
